@@ -119,19 +119,28 @@ theorem fromBech32_toBech32 (a : Address) (s : List Char) (hp : a.payment.Sized)
     exact fromBytes_toBytes a bs hp hs hb
   · exact absurd h (by simp)
 
-/-- `Address.encode()` returns a string exactly when that string has at most 108 characters -/
-theorem toBech32_some (a : Address) (bs : Bytes) (t : AddressType) (ht : inferType a.payment a.staking = some t)
-    (hb : toBytes a = some bs) (hlen : (hrp t a.network).length + 7 + (8 * bs.length + 4) / 5 ≤ 108) :
-    ∃ s, toBech32 a = some (some s) := by
-  obtain ⟨s, hs⟩ := Bech32.encode_some (hrp t a.network) bs (hrpOk t a.network) hlen
-  exact ⟨s, by simp [toBech32, ht, hb, hs]⟩
+/-- `toBytes` succeeds exactly when the kind can be inferred -/
+theorem inferType_of_toBytes (a : Address) (h : toBytes a ≠ none) : ∃ t, inferType a.payment a.staking = some t := by
+  unfold toBytes at h
+  split at h
+  · exact absurd rfl h
+  · rename_i t ht; exact ⟨t, ht⟩
 
-/-- … and `None` when it would be longer -/
-theorem toBech32_none (a : Address) (bs : Bytes) (t : AddressType) (ht : inferType a.payment a.staking = some t)
-    (hb : toBytes a = some bs) (hlen : (hrp t a.network).length + 7 + (8 * bs.length + 4) / 5 > 108) :
-    toBech32 a = some none := by
-  have := Bech32.encode_none (hrp t a.network) bs (hrpOk t a.network) hlen
-  simp [toBech32, ht, hb, this]
+/-- `Address.encode()` returns a string for every constructible address: prefix, separator, ⌈8n/5⌉ data characters and
+six checksum characters, without a length limit -/
+theorem toBech32_some (a : Address) (bs : Bytes) (t : AddressType) (ht : inferType a.payment a.staking = some t)
+    (hb : toBytes a = some bs) :
+    ∃ s, toBech32 a = some (some s) ∧ s.length = (hrp t a.network).length + 7 + (8 * bs.length + 4) / 5 := by
+  obtain ⟨s, hs, hl⟩ := Bech32.encode_some (hrp t a.network) bs (hrpOk t a.network)
+  exact ⟨s, by simp [toBech32, ht, hb, hs], hl⟩
+
+/-- every constructible address has a text form that decodes back to it -/
+theorem toBech32_total (a : Address) (hp : a.payment.Sized) (hs : a.staking.Sized) (hc : toBytes a ≠ none) :
+    ∃ s, toBech32 a = some (some s) ∧ fromBech32 s = .ok a := by
+  obtain ⟨t, ht⟩ := inferType_of_toBytes a hc
+  obtain ⟨bs, hb⟩ := Option.ne_none_iff_exists'.mp hc
+  obtain ⟨s, h, _⟩ := toBech32_some a bs t ht hb
+  exact ⟨s, h, fromBech32_toBech32 a s hp hs h⟩
 
 /-- ten continuation-free groups are not enough for 2^63: its encoding has 10 bytes -/
 theorem encodeInt_2_63_length : 10 ≤ (encodeInt (2 ^ 63)).length := by
@@ -158,5 +167,24 @@ theorem fromBech32_subst (hrp pre suf : List Char) (c c' : Char) (hA : ∀ x ∈
   have := Bech32.subst_rejected hrp pre suf c c' hA hpre hsuf hc hc' hne hv
   unfold fromBech32 Bech32.decode
   rw [this]
+
+/-- `Address.decode` succeeds only on strings that `bech32_decode` accepts as Bech32 -/
+theorem fromBech32_ok_bech32 (s : List Char) (a : Address) (h : fromBech32 s = .ok a) :
+    ∃ hrp data, Bech32.bech32Decode s = some (hrp, data, .bech32) := by
+  unfold fromBech32 Bech32.decode at h
+  cases hd : Bech32.bech32Decode s with
+  | none => rw [hd] at h; simp at h
+  | some r =>
+    obtain ⟨hrp, data, spec⟩ := r
+    obtain ⟨rfl, _⟩ := Bech32.bech32Decode_accepts s hrp data spec hd
+    exact ⟨hrp, data, rfl⟩
+
+/-- a string whose checksum was created with the Bech32m constant: `decode` and `Address.decode` raise -/
+theorem fromBech32_bech32m (hrp : List Char) (data : List Nat) (hh : Bech32.HrpOk hrp) (hd : ∀ d ∈ data, d < 32) :
+    ∃ s, Bech32.bech32Encode hrp data true = some s ∧ Bech32.bech32Decode s = none ∧
+      Bech32.decode s = .raised ∧ fromBech32 s = .error .bech32 := by
+  refine ⟨_, Bech32.bech32Encode_eq hrp data hd true, Bech32.bech32Decode_bech32m hrp data hh hd, ?_, ?_⟩
+  · unfold Bech32.decode; rw [Bech32.bech32Decode_bech32m hrp data hh hd]
+  · unfold fromBech32 Bech32.decode; rw [Bech32.bech32Decode_bech32m hrp data hh hd]
 
 end Pyc.Addr
